@@ -292,8 +292,10 @@ def format_file(filename: Path, preserve: Collection[str] = frozenset(), safe: b
     keep_imports = filename.name == "__init__.py"
     source = format_code(initial_content, preserve=preserve, safe=safe, keep_imports=keep_imports)
 
-    if source != initial_content and (
-        core.is_valid_python(source) or not core.is_valid_python(initial_content)
+    if (
+        source != initial_content
+        and (core.is_valid_python(source) or not core.is_valid_python(initial_content))
+        and (core.is_compilable(source) or not core.is_compilable(initial_content))
     ):
         with open(filename, "w", encoding="utf-8") as stream:
             stream.write(source)
